@@ -479,6 +479,57 @@ class TIMachine(FormatMachine):
                 s.model["media"][f] = dec(op[f])
         return "ok"
 
+    def op_ti_serialize(self, op):
+        """the public serialize(parser[, main_variant]) used directly (a caller that post-processes the parser): what it
+        puts into the parser is judged like a written file"""
+        s = self.slot(op)
+        if s is None or s.obj is None or s.tainted or self.validity(s)[0] != VALID:
+            return "noop"
+        import io
+        import productmd.common
+        parser = productmd.common.SortedConfigParser()
+        try:
+            if "main_variant" in op:
+                s.obj.serialize(parser, main_variant=op["main_variant"])
+            else:
+                s.obj.serialize(parser)
+            f = io.StringIO()
+            s.obj.build_file(parser, f)
+        except Exception as e:
+            if isinstance(e, HarnessError):
+                raise
+            return "refused:" + exc_class(e)
+        self.file_invariants(s, f.getvalue(), op)
+        CTX.probe("ti.serialize_called_directly")
+        return "ok"
+
+    def op_ti_clear(self, op):
+        """an OPTIONAL part of the description is taken back as a whole (nothing of it may be written any more)"""
+        s = self.slot(op)
+        if s is None or s.obj is None:
+            return "noop"
+        what = op["what"]
+        if what == "stage2":
+            s.obj.stage2.mainimage = None
+            s.obj.stage2.instimage = None
+            s.model["stage2"]["mainimage"] = None
+            s.model["stage2"]["instimage"] = None
+        elif what == "media":
+            s.obj.media.discnum = None
+            s.obj.media.totaldiscs = None
+            s.model["media"]["discnum"] = None
+            s.model["media"]["totaldiscs"] = None
+        elif what == "checksums":
+            if op.get("inplace"):
+                s.obj.checksums.checksums.clear()
+            else:
+                s.obj.checksums.checksums = {}
+            s.model["checksums"].clear()
+        elif what == "images":
+            s.obj.images.images.clear()
+            s.model["images"].clear()
+        return "ok"
+
     def op_ti_checksum_raw(self, op):
         """plant an entry directly (poison: absolute path)"""
         s = self.slot(op)
@@ -850,34 +901,37 @@ class TIMachine(FormatMachine):
     def _restart_bare(self, s, op, path, d):
         via = op.get("via", "path")
         b = d["bare"]
+        # digests without a type are what older files hold: in a run that is about reading older documents the same
+        # oracle speaks for that property
+        P = "C05" if self.cfg.get("focus") == "C05" else "C16"
         CTX.fault("F9.restart_" + via)
         try:
             new = self.load_fresh(path, via, op.get("offset", 0))
         except Exception as e:
             if isinstance(e, HarnessError):
                 raise
-            self.count("C16", ["bare-rejected", b["must_reject"], sorted(set(b["kinds"]))])
+            self.count(P, ["bare-rejected", b["must_reject"], sorted(set(b["kinds"]))])
             if not b["must_reject"]:
-                raise Violation("C16", "C16.bare_digest_typed_by_length", "recognised-bare-digest-rejected/%s" % exc_class(e),
+                raise Violation(P, "C16.bare_digest_typed_by_length", "recognised-bare-digest-rejected/%s" % exc_class(e),
                                 {"msg": str(e)[:160]})
             return "load-failed:" + exc_class(e)
         got = observe_ti(new)["checksums"]
-        self.count("C16", ["bare-loaded", b["must_reject"], sorted(set(b["kinds"]))])
+        self.count(P, ["bare-loaded", b["must_reject"], sorted(set(b["kinds"]))])
         # no path may carry a checksum that the file gives for another path
         stored = inimod.as_dict(self.fs.get(path).decode("utf-8")).get("checksums", {})
         for p, (t, v) in sorted(got.items()):
             raw = stored.get(p)
             if raw is None:
-                raise Violation("C16", "C16.no_path_carries_anothers_checksum", "loaded-path-not-in-file", {"path": p})
+                raise Violation(P, "C16.no_path_carries_anothers_checksum", "loaded-path-not-in-file", {"path": p})
             rv = raw.split(":", 1)[1] if ":" in raw else raw
             if v != rv:
-                raise Violation("C16", "C16.no_path_carries_anothers_checksum", "path-carries-value-of-another-entry",
+                raise Violation(P, "C16.no_path_carries_anothers_checksum", "path-carries-value-of-another-entry",
                                 {"path": p, "loaded": [t, v[:16]], "file": raw[:40]})
         if b["must_reject"]:
-            raise Violation("C16", "C16.unrecognised_bare_digest_rejected", "unrecognised-bare-digest-loaded", {"kinds": b["kinds"]})
+            raise Violation(P, "C16.unrecognised_bare_digest_rejected", "unrecognised-bare-digest-loaded", {"kinds": b["kinds"]})
         diff = first_diff(b["expected"]["checksums"], got)
         if diff:
-            raise Violation("C16", "C16.bare_digest_typed_by_length", "bare-digest-mistyped/%s" % diff_key(diff), {"diff": diff})
+            raise Violation(P, "C16.bare_digest_typed_by_length", "bare-digest-mistyped/%s" % diff_key(diff), {"diff": diff})
         s.obj = new
         s.tainted = True
         self.rebind(s)
@@ -1277,10 +1331,18 @@ class DIMachine(FormatMachine):
         return "ok"
 
     def file_invariants(self, s, text, op):
-        if s.tainted or self.validity(s)[0] != VALID or not self.watching("C04"):
+        if s.tainted or self.validity(s)[0] != VALID:
             return
         lines = text.split("\n")
         m = s.model
+        if self.cfg.get("focus") == "C08" and m["disc_numbers"] != ["ALL"] and len(lines) >= 4:
+            # "caller-ordered lists (... disc numbers) are content and keep their order" (C08)
+            given = [str(i) for i in m["disc_numbers"]]
+            if lines[3].split(",") != given and sorted(set(lines[3].split(","))) == sorted(set(given)):
+                raise Violation("C08", "C08.caller_ordered_lists_keep_their_order", "caller-ordered-list-reordered/discinfo",
+                                {"given": given[:8], "written": lines[3][:40]})
+        if not self.watching("C04"):
+            return
         want = [repr(m["timestamp"]), m["description"], m["arch"],
                 "ALL" if m["disc_numbers"] == ["ALL"] else ",".join(str(i) for i in m["disc_numbers"])]
         self.count("C04", ["discinfo-lines", self.abstract(s)])
